@@ -43,6 +43,11 @@ type Backend struct {
 	builder *ModuleBuilder
 	options Options
 
+	// requestedVersion is the SPIR-V version the backend was configured with.
+	// requireSpirvVersion14 raises options.Version while one module is compiled;
+	// Reset restores it so that the raise does not leak into the next module.
+	requestedVersion Version
+
 	// Type cache (IR TypeHandle → SPIR-V ID)
 	typeIDs map[ir.TypeHandle]uint32
 
@@ -168,6 +173,7 @@ type wrappedBinaryOp struct {
 func NewBackend(options Options) *Backend {
 	return &Backend{
 		options:             options,
+		requestedVersion:    options.Version,
 		typeIDs:             make(map[ir.TypeHandle]uint32, 16),
 		constantIDs:         make(map[ir.ConstantHandle]uint32, 16),
 		globalIDs:           make(map[ir.GlobalVariableHandle]uint32, 4),
@@ -206,6 +212,7 @@ func NewBackend(options Options) *Backend {
 // do not need to call it explicitly.
 func (b *Backend) Reset() {
 	b.module = nil
+	b.options.Version = b.requestedVersion
 
 	// Clear maps — Go 1.21+ clear() keeps capacity, removes all entries
 	clear(b.typeIDs)
